@@ -469,7 +469,10 @@ impl Property for C01 {
             if let Ok(Ok(latest)) = r {
                 ensure_p!(latest == model.is_latest(&declared_hash), "validate_proof returned is_latest={} but the set's epoch says {}", latest, model.is_latest(&declared_hash));
             }
-            ensure_p!(snapshot(&env) == snap0 && events_len(&env) == ev0, "validate_proof changed state or emitted events");
+            if !ok {
+                // "every other submission is rejected and changes nothing" (an accepted check may e.g. extend TTLs)
+                ensure_p!(snapshot(&env) == snap0 && events_len(&env) == ev0, "a rejected proof check changed state or emitted events");
+            }
         } else {
             let mut msgs = SVec::new(&env);
             let mut ms: Vec<Message> = vec![];
